@@ -98,4 +98,11 @@ termination_by structural conn
 def readMessage (chunk : Bytes) (conn : List Bytes) : Outcome :=
   loop chunk Hs.headerLen conn chunk.length 0
 
+/-- Time. `readMessage` arms a fresh read deadline of `timeout` before EVERY `conn.Read`
+    (`conn.SetReadDeadline(time.Now().Add(timeout))` inside the loop). If the i-th read returns after
+    `delays[i]` (a read that would take longer fails at the deadline), the time spent in the first `n`
+    reads is: -/
+def elapsed (timeout : Nat) (delays : List Nat) (n : Nat) : Nat :=
+  ((delays.take n).map (fun d => min d timeout)).sum
+
 end ErgoVerif.HsReader
